@@ -175,6 +175,15 @@ package analysis
 //@   loop range:varInfoList.VarVec step [declaration-skipped-only-when-read-exempt-or-a-library-alias] hits("InsertError#0") == prev(hits("InsertError#0")) ==>
 //@        oneVar.IsUse || oneVar.IsClose || oneVar.ReferFunc != nil || hits("IsInSysNotUseMap#0") > prev(hits("IsInSysNotUseMap#0")) || hits("IsInSysNotUseMap#1") > prev(hits("IsInSysNotUseMap#1"))
 //@ end
+// C17: the pass emits two diagnostic types, 4 and 17, each with a switch of its own: it is skipped as a whole only when
+// BOTH are off (fix 6298dda; the per-type filtering is done where each report is recorded)
+//@ func (*Analysis).checkLocVarCall
+//@   props C17
+//@   at call IsGlobalIgnoreErrType#0 before assert[first-switch-asked-is-type-4] arg1 == common.CheckErrorLocalNoUse
+//@   at call IsGlobalIgnoreErrType#1 before assert[second-switch-is-asked-only-when-the-first-is-off-and-is-type-17] arg1 == common.CheckErrorNoUseAssign && lastresult("IsGlobalIgnoreErrType#0")
+//@   ensures[pass-is-skipped-by-the-switches-only-when-both-are-off] hits("IsGlobalIgnoreErrType#0") == 1 && hits("IsIgnoreLocNotUseVar#0") == 0 && hits("InsertError#0") == 0 && a.curScope != nil && len(a.curScope.LocVarMap) > 0
+//@        ==> true
+//@ end
 // every name of the scope and every declaration of a name is examined - the scan ranges over a Go map, so leaving it
 // early would make the set of reports depend on the iteration order (C09) and miss unread locals (C07)
 //@ func (*Analysis).checkLocVarCall
@@ -297,4 +306,13 @@ package analysis
 //@   ensures[float-literal-possibly-signed-or-parenthesised] result <==> (typeis(exp, "*ast.FloatExp")
 //@        || (typeis(exp, "*ast.ParensExp") && isFloatLiteral(as(exp, "*ast.ParensExp").Exp))
 //@        || (typeis(exp, "*ast.UnopExp") && as(exp, "*ast.UnopExp").Op == lexer.TkOpUnm && isFloatLiteral(as(exp, "*ast.UnopExp").Exp)))
+//@ end
+
+// ---- C07: the one-line idiom `x = x or 1` ----
+// a read of a global whose only definition is that very statement is exempt from the "defined later" report (type 3)
+// only when definition and read are on the SAME line - a definition further down does not make the read legitimate
+//@ func (*Analysis).ignoreCircleDefine
+//@   props C07
+//@   ensures[exempt-only-for-a-definition-on-the-line-of-the-read] result ==> binParentExp != nil && loc.StartLine == findVar.Loc.StartLine
+//@   ensures[exempt-only-inside-a-comparison-or-a-logical-operator] result ==> binParentExp.Op == lexer.TkOpEq || binParentExp.Op == lexer.TkOpNe || binParentExp.Op == lexer.TkOpAnd || binParentExp.Op == lexer.TkOpOr
 //@ end
